@@ -239,6 +239,12 @@ def solve(ctx, ob, timeout_ms=20000):
     t0 = time.time()
     s = z3.Solver()
     s.set(timeout=timeout_ms)
+    if ob["kind"] == "frame-abs":
+        # obligation of the may-alias/effect analysis: decided by the analysis itself (sound over-approximation):
+        # a flagged site is undecided, never a violation by itself
+        ok = z3.is_true(ob["goal"])
+        return {"id": ob["id"], "kind": ob["kind"], "time": 0.0, "solver": "pyvc.frame (abstract interpretation)",
+                "status": "discharged" if ok else "unknown", "detail": "" if ok else f"the effect analysis cannot exclude: {ob['goal']}"}
     if ob["kind"] == "cover-sat":
         # vacuity guard: the hypotheses must be satisfiable; decided over a finite universe of names
         # (name templates are total injections with disjoint ranges, which no finite universe admits: checked as is;
